@@ -9,6 +9,7 @@ import (
 	"math/rand"
 	"net"
 	"os"
+	"os/exec"
 	"os/signal"
 	"path/filepath"
 	"sort"
@@ -37,6 +38,24 @@ func init() {
 	// inputs are fixed small scenarios, not to be shrunk (every re-run costs seconds)
 	gen.RegisterOp("c05", "fate", func(c *gen.Ctx, raw json.RawMessage) any {
 		return c05Run(c, gen.Into[c05In](raw))
+	})
+	// the same operation through the REAL command `connectconformance` built from the tree: the
+	// effect of what cmd/connectconformance/main.go decides — `--max-servers` given or left to its
+	// default, `--port P` (one server at a time, every server on port P), the split of the positional
+	// arguments at "----" in mode both
+	gen.RegisterOp("c05", "cli", func(c *gen.Ctx, raw json.RawMessage) any {
+		in := gen.Into[c05In](raw)
+		if in.Cli == nil || c.BinDir == "" {
+			return c05Out{LoadErr: "not a cli scenario"}
+		}
+		var out c05Out
+		for attempt := 0; attempt < 3; attempt++ {
+			out = c05Run(c, in)
+			if !out.PortTaken {
+				break // (somebody else on this machine took the port between the choice and the bind: again)
+			}
+		}
+		return out
 	})
 }
 
@@ -198,10 +217,19 @@ func c05Peer(args []string) int {
 					names = append(names, h.Value...)
 				}
 			}
+			// op cli with a fixed port: is a server listening where this request is addressed to, now?
+			probe := ""
+			if os.Getenv("VERIF_C05_PROBE") == "1" && req.HttpVersion != conformancev1.HTTPVersion_HTTP_VERSION_3 {
+				probe = "dead"
+				if conn, err := net.DialTimeout("tcp", net.JoinHostPort(req.Host, strconv.Itoa(int(req.Port))), 2*time.Second); err == nil {
+					conn.Close()
+					probe = "alive"
+				}
+			}
 			mu.Lock()
 			c05Log(dir, file, map[string]any{"ev": "req", "name": req.TestName, "host": req.Host, "port": int(req.Port), "hasCert": len(req.ServerTlsCert) > 0,
 				"hasClientCreds": req.ClientTlsCreds != nil, "proto": int(req.Protocol), "ver": int(req.HttpVersion), "hdrName": names,
-				"codec": int(req.Codec), "comp": int(req.Compression)})
+				"codec": int(req.Codec), "comp": int(req.Compression), "probe": probe})
 			if diesReading && nRead == stopAfter {
 				breakdown()
 			}
@@ -266,12 +294,23 @@ type c05In struct {
 	ClientStopHow   string `json:"clientStopHow,omitempty"`
 	ClientStopAfter int    `json:"clientStopAfter,omitempty"`
 	Verbose         bool   `json:"verbose,omitempty"` // -v: server instances in sorted order
+	// Cli (op cli): the scenario goes through the real command built from the tree
+	Cli *c05Cli `json:"cli,omitempty"`
 	// TimeoutS: the watchdog of this scenario (0: 90 s) — Run not having returned by then is the
 	// observation "the run did not terminate"; the scenario's peer processes are then killed
 	TimeoutS int `json:"timeoutS,omitempty"`
 }
+// c05Cli: how the command line is spelled.  MaxServers: flag (`--max-servers N`) | eq (`--max-servers=N`)
+// | default (not given: 4).  Port (mode client): `--port P` with a port that is free at that moment.
+type c05Cli struct {
+	MaxServers string `json:"maxServers"`
+	Port       bool   `json:"port,omitempty"`
+}
+
 type c05Out struct {
-	Perms    []cc.VerifC05Perm `json:"perms"`
+	Perms []cc.VerifC05Perm `json:"perms"`
+	// Base: the library itself, every permutation with the simple name of its test case
+	Base     []cc.VerifC05Perm `json:"base"`
 	Requests []map[string]any  `json:"requests"`
 	Servers  []map[string]any  `json:"servers"`
 	RunErr   string            `json:"runErr"`
@@ -282,6 +321,12 @@ type c05Out struct {
 	AliveAtReturn []int `json:"aliveAtReturn"`
 	// Breakdown: the client really broke down (its own log says so)
 	Breakdown bool `json:"breakdown"`
+	// op cli: exit status of the command (-1: killed by the watchdog); with --port: the port, and a
+	// bind failure seen on every attempt (somebody else took the port in between: set aside)
+	ExitCode  int    `json:"exitCode,omitempty"`
+	FixedPort int    `json:"fixedPort,omitempty"`
+	PortTaken bool   `json:"portTaken,omitempty"`
+	Stderr    string `json:"stderr,omitempty"`
 }
 
 // c05AliveServers: the server processes of this scenario (one log file per pid) that are running
@@ -426,6 +471,10 @@ func c05Run(c *gen.Ctx, in c05In) c05Out {
 		return out
 	}
 	out.Perms = perms
+	if out.Base, err = cc.VerifC05Library(files, cfg, mode); err != nil {
+		out.LoadErr = err.Error()
+		return out
+	}
 	t0 := time.Now()
 	done := make(chan error, 1)
 	var runErr error
@@ -433,10 +482,64 @@ func c05Run(c *gen.Ctx, in c05In) c05Out {
 	if timeout <= 0 || timeout > 600 {
 		timeout = 90
 	}
-	go func() {
-		_, err := cc.Run(flags, &c02Printer{}, &c02Printer{})
-		done <- err
-	}()
+	var cliCmd *exec.Cmd
+	var cliErr bytes.Buffer
+	if in.Cli != nil && in.Cli.Port {
+		// a port that is free right now
+		if ln, err := net.Listen("tcp", "127.0.0.1:0"); err == nil {
+			out.FixedPort = ln.Addr().(*net.TCPAddr).Port
+			ln.Close()
+		}
+	}
+	if in.Cli != nil {
+		// the real command: cmd/connectconformance (flag parsing, --port / --max-servers, the split
+		// of the positional arguments at "----")
+		args := []string{"--mode", map[bool]string{true: "both", false: "client"}[in.Mode == "both"], "--conf", cfgPath}
+		for _, p := range paths {
+			args = append(args, "--test-file", p)
+		}
+		switch in.Cli.MaxServers {
+		case "flag":
+			args = append(args, "--max-servers", fmt.Sprint(in.MaxServers))
+		case "eq":
+			args = append(args, fmt.Sprintf("--max-servers=%d", in.MaxServers))
+		}
+		for _, p := range in.Run {
+			args = append(args, "--run", p)
+		}
+		for _, p := range in.Skip {
+			args = append(args, "--skip", p)
+		}
+		if in.Verbose {
+			args = append(args, "-v")
+		}
+		if in.Mode != "both" {
+			args = append(args, "--bind", "127.0.0.1")
+			if in.Cli.Port {
+				args = append(args, "--port", fmt.Sprint(out.FixedPort))
+			}
+		}
+		args = append(args, "--")
+		args = append(args, flags.ClientCommand...)
+		if in.Mode == "both" {
+			args = append(args, "----")
+			args = append(args, flags.ServerCommand...)
+		}
+		cliCmd = exec.Command(filepath.Join(c.BinDir, "connectconformance"), args...)
+		cliCmd.Env = append(os.Environ(), "VERIF_C05_PROBE=1")
+		cliCmd.Stdout, cliCmd.Stderr = io.Discard, &cliErr
+		cliCmd.SysProcAttr = &syscall.SysProcAttr{Setpgid: true}
+		if err := cliCmd.Start(); err != nil {
+			out.LoadErr = "start: " + err.Error()
+			return out
+		}
+		go func() { done <- cliCmd.Wait() }()
+	} else {
+		go func() {
+			_, err := cc.Run(flags, &c02Printer{}, &c02Printer{})
+			done <- err
+		}()
+	}
 	// the watchdog counts ticks this process has received, not wall-clock time (see cc.VerifDog)
 	dog := cc.VerifNewDog(timeout)
 	defer dog.Stop()
@@ -449,7 +552,28 @@ func c05Run(c *gen.Ctx, in c05In) c05Out {
 	case <-dog.C:
 		out.AliveAtReturn = []int{}
 		// Run hangs: its goroutines are lost, its peers must not stay behind
+		if cliCmd != nil {
+			_ = syscall.Kill(-cliCmd.Process.Pid, syscall.SIGKILL)
+			out.ExitCode = -1
+		}
 		c05KillScenario(dir)
+	}
+	if cliCmd != nil && out.Returned {
+		if ee, ok := runErr.(*exec.ExitError); ok {
+			out.ExitCode = ee.ExitCode()
+		}
+		// a bind failure is set aside only when the port is held by somebody else: the command has
+		// ended, so have its servers; if the port can be bound now, the runner's own servers collided
+		if strings.Contains(cliErr.String(), "address already in use") && out.FixedPort != 0 {
+			if ln, err := net.Listen("tcp", fmt.Sprintf("127.0.0.1:%d", out.FixedPort)); err != nil {
+				out.PortTaken = true
+			} else {
+				ln.Close()
+			}
+		}
+		if out.ExitCode != 0 {
+			out.Stderr = c04Tail(cliErr.String(), 300)
+		}
 	}
 	out.ElapsedS = time.Since(t0).Seconds()
 	if len(out.AliveAtReturn) > 0 {
@@ -585,6 +709,99 @@ func c05FateScenarios(c *gen.Ctx) []any {
 	return ins
 }
 
+// c05NameScenarios: suites and test cases whose names repeat themselves — the test's own name is
+// also the suite's name, a suffix or a word of it, a whole path component of it, or the text of one
+// of the axis components every full name contains ("TLS", "false", "Protocol", "HTTPVersion:2") —
+// run against the in-process reference servers (mode client: the gRPC-peer permutations and their
+// marked names take part): every permutation, plain or gRPC-peer, must be handed out exactly once
+// under its own name, the marker sitting immediately before the LAST occurrence of the test's name.
+func c05NameScenarios(c *gen.Ctx) []any {
+	mk := func(ms int, run, skip []string, suites ...c05Suite) any {
+		c.E.Count("names")
+		return c05In{Mode: "client", MaxServers: ms, Versions: []int{1, 2}, Protos: []int{1, 2, 3}, Behaviour: "ok", Run: run, Skip: skip, Suites: suites}
+	}
+	t := func(names ...string) []c05Test {
+		var out []c05Test
+		for _, n := range names {
+			out = append(out, c05Test{Name: n, St: 1})
+		}
+		return out
+	}
+	ins := []any{
+		mk(2, []string{}, []string{}, c05Suite{Name: "Echo unary", Tests: t("unary", "unary/with-headers", "Echo unary")}),
+		mk(1, []string{}, []string{}, c05Suite{Name: "a", Tests: t("a", "a/a", "b/a")}, c05Suite{Name: "b", Tests: t("a")}),
+		mk(4, []string{}, []string{"**/(grpc server impl)/TLS"}, c05Suite{Name: "TLS", Tests: t("TLS", "false", "TLS:false", "HTTPVersion:2", "Protocol")}),
+	}
+	if c.Thorough() {
+		ins = append(ins,
+			mk(2, []string{"**/unary", "**/(grpc server impl)/x/unary"}, []string{}, c05Suite{Name: "unary", Tests: t("unary", "x/unary", "unary/unary")}),
+			mk(2, []string{}, []string{"**/a"}, c05Suite{Name: "a", Tests: t("a", "a/a/a", "Codec:CODEC_PROTO")}),
+		)
+	}
+	return ins
+}
+
+// c05CliScenarios (op cli): a handful of the scenarios of op run through the real command.
+func c05CliScenarios(c *gen.Ctx) []any {
+	r := c.R
+	plain := []c05Suite{{Name: "F", Tests: []c05Test{{Name: "a/t0", St: 1}, {Name: "a/t1", St: 1}, {Name: "b/t2", St: 1}}}}
+	kinds := []c05Suite{
+		{Name: "P", Tests: []c05Test{{Name: "a/t0", St: 1}, {Name: "b/t1", St: 3}}},
+		{Name: "T", TLS: true, Tests: []c05Test{{Name: "a/t0", St: 1}, {Name: "a/t1", St: 2}}},
+		{Name: "M", TLS: true, Certs: true, Tests: []c05Test{{Name: "a/t0", St: 1}}},
+	}
+	var ins []any
+	add := func(in c05In) {
+		in.TimeoutS = 60
+		if in.Run == nil {
+			in.Run = []string{}
+		}
+		if in.Skip == nil {
+			in.Skip = []string{}
+		}
+		ins = append(ins, in)
+		c.E.Count("cli:" + in.Mode + ":" + in.Cli.MaxServers + map[bool]string{true: ":port", false: ""}[in.Cli.Port])
+	}
+	// mode both: `-- client … ---- server …`; --max-servers given in both spellings / left to its default (4)
+	add(c05In{Mode: "both", MaxServers: 2, ExitDelayMs: 60, LatencyMs: 2, Versions: []int{1, 2}, Protos: []int{1, 2, 3}, Behaviour: "ok", Suites: plain, Cli: &c05Cli{MaxServers: "flag"}})
+	add(c05In{Mode: "both", MaxServers: 4, ExitDelayMs: 120, LatencyMs: 5, Versions: []int{1, 2}, Protos: []int{1, 2, 3}, TLS: true, Certs: true, Behaviour: "ok", Suites: kinds, Cli: &c05Cli{MaxServers: "default"}})
+	add(c05In{Mode: "both", MaxServers: 1, ExitDelayMs: 20, Versions: []int{1, 2}, Protos: []int{1, 3}, TLS: true, Behaviour: gen.Pick(r, []string{"ok", "eof"}), Suites: kinds[:2], Skip: []string{"**/b/*"}, Cli: &c05Cli{MaxServers: "eq"}})
+	// mode client with a fixed port: several server instances (HTTP/1.1 and HTTP/2, three protocols; with
+	// and without TLS), two in-process reference servers each — all of them on port P, hence one at a
+	// time, whatever --max-servers defaults to; an explicit --max-servers 1 is accepted, 2 is refused
+	add(c05In{Mode: "client", MaxServers: 4, Versions: []int{1, 2}, Protos: []int{1, 2, 3}, Behaviour: "ok", Suites: plain, Cli: &c05Cli{MaxServers: "default", Port: true}})
+	add(c05In{Mode: "client", MaxServers: 1, Versions: []int{1, 2}, Protos: []int{1, 3}, TLS: true, Behaviour: "ok", Suites: kinds[:2], Cli: &c05Cli{MaxServers: gen.Pick(r, []string{"flag", "eq"}), Port: true}})
+	add(c05In{Mode: "client", MaxServers: 2, Versions: []int{1, 2}, Protos: []int{1, 2}, Behaviour: "ok", Suites: plain, Cli: &c05Cli{MaxServers: "flag", Port: true}})
+	if c.Thorough() {
+		for i := 0; i < 12; i++ {
+			in := c05In{Mode: gen.Pick(r, []string{"both", "both", "client"}), MaxServers: r.Range(1, 4), ExitDelayMs: gen.Pick(r, []int{0, 20, 120}), LatencyMs: gen.Pick(r, []int{0, 2, 10}),
+				Versions: [][]int{{1}, {1, 2}, {2}}[r.Intn(3)], Protos: [][]int{{1}, {1, 2, 3}, {1, 3}}[r.Intn(3)], Behaviour: "ok", Suites: gen.Pick(r, [][]c05Suite{plain, kinds[:2], kinds}),
+				Cli: &c05Cli{MaxServers: gen.Pick(r, []string{"flag", "eq", "default"})}}
+			hasV2 := false
+			for _, v := range in.Versions {
+				hasV2 = hasV2 || v == 2
+			}
+			if !hasV2 {
+				in.Protos = []int{1, 3}
+			}
+			in.TLS = r.Bool()
+			in.Certs = in.TLS && r.Bool()
+			if in.Cli.MaxServers == "default" {
+				in.MaxServers = 4
+			}
+			if in.Mode == "client" {
+				in.ExitDelayMs = 0
+				in.Cli.Port = r.Chance(2, 3)
+			}
+			if r.Chance(1, 3) {
+				in.Run = []string{gen.Pick(r, []string{"**/a/*", "**/t0", "**/Protocol:PROTOCOL_GRPC_WEB/**"})}
+			}
+			add(in)
+		}
+	}
+	return ins
+}
+
 func runC05(c *gen.Ctx) error {
 	r := c.R
 	n := 10
@@ -619,8 +836,12 @@ func runC05(c *gen.Ctx) error {
 			in.Behaviour = gen.Pick(r, []string{"garbage", "nocert"})
 		}
 		ns := r.Range(1, 3)
+		tricky := r.Chance(1, 3) // names whose components repeat (see c05NameScenarios)
 		for s := 0; s < ns; s++ {
 			su := c05Suite{Name: fmt.Sprintf("S%d", s)}
+			if tricky {
+				su.Name = []string{"Echo unary", "a", "TLS"}[s]
+			}
 			if r.Chance(1, 4) {
 				su.TLS = true
 			}
@@ -632,12 +853,27 @@ func runC05(c *gen.Ctx) error {
 			}
 			nt := r.Range(1, 4)
 			for t := 0; t < nt; t++ {
-				su.Tests = append(su.Tests, c05Test{Name: fmt.Sprintf("%s/t%d", gen.Pick(r, []string{"a", "b", "grp/x"}), t), St: r.Range(1, 5)})
+				name := fmt.Sprintf("%s/t%d", gen.Pick(r, []string{"a", "b", "grp/x"}), t)
+				if tricky {
+					// the test's own name occurs earlier in the full name too: in the suite name, as a
+					// suffix or a whole component of it, or in one of the axis components
+					pool := []string{"unary", "a", "a/a", "TLS", "false", "Protocol", "TLS:false", su.Name, "x/" + su.Name, "unary/a", "HTTPVersion:2", "b"}
+					name = pool[(r.Intn(len(pool))+t*5)%len(pool)]
+					for _, prev := range su.Tests {
+						if prev.Name == name {
+							name = fmt.Sprintf("%s/t%d", name, t)
+						}
+					}
+				}
+				su.Tests = append(su.Tests, c05Test{Name: name, St: r.Range(1, 5)})
 			}
 			in.Suites = append(in.Suites, su)
 		}
 		// patterns derived from plausible names
 		pat := func() string {
+			if tricky && r.Bool() {
+				return gen.Pick(r, []string{"**/unary", "Echo unary/**", "**/(grpc server impl)/a", "a/**", "**/TLS:false/TLS", "**/a"})
+			}
 			switch r.Intn(7) {
 			case 0:
 				return "S0/**"
@@ -691,6 +927,7 @@ func runC05(c *gen.Ctx) error {
 		ins = append(ins, c05In{Mode: "client", MaxServers: 2, Versions: []int{1, 2}, Protos: []int{1, 2, 3}, TLS: true, Certs: false,
 			Behaviour: "ok", Run: mp[0], Skip: mp[1], Suites: allKinds[:2]})
 	}
+	ins = append(ins, c05NameScenarios(c)...)
 	// server faults with slow-exiting servers and a single permit: the early-return paths of the
 	// batch runner must not free the permit while the aborted server is still alive
 	for _, beh := range []string{"garbage", "nocert"} {
@@ -713,6 +950,9 @@ func runC05(c *gen.Ctx) error {
 		}
 	}
 	group("fate", c05FateScenarios(c))
+	if c.BinDir != "" {
+		group("cli", c05CliScenarios(c))
+	}
 	group("shared", c05SharedScenarios(c))
 	group("osserver", oscmdServerScenarios(c)[2:])
 	group("handshake", c05HandshakeScenarios(c))
